@@ -171,6 +171,10 @@ def opkind(op):
     """operation kind for signatures; range operations carry their iterator kind"""
     f = op.split(":")
     k = f[0]
+    if len(f) == 7:
+        # faulted operation: keep the position class out, mark the fault
+        k2 = opkind(":".join(f[:6]))
+        return k2 + "!fault"
     try:
         if k == "INS_RANGE":
             return k + "/" + SRC_NAMES[int(f[5])]
@@ -181,7 +185,7 @@ def opkind(op):
     return k
 
 
-def explore(ctx, matrix, want_tags, engine="E1", any_fail_counts=False, eng=None):
+def explore(ctx, matrix, want_tags, engine="E1", any_fail_counts=False, eng=None, only_faulted=False, only_claiming=False):
     """Run the matrix; record violations whose tags intersect want_tags (or every failure if any_fail_counts)."""
     eng = eng or E1ENG
     name = eng.name
@@ -227,10 +231,15 @@ def explore(ctx, matrix, want_tags, engine="E1", any_fail_counts=False, eng=None
         if res.get("static_fail") and ("C14" in want_tags or any_fail_counts):
             ctx.violation("%s|%s|%s|static|%s" % (engine, eng.kind(i), res["instantiation"]["cat"], norm(res["static_fail"])),
                           {"engine": engine, "instantiation": i, "observed": res["static_fail"]}, res["static_fail"])
+        tot["fault_transitions"] = tot.get("fault_transitions", 0) + res.get("fault_transitions", 0)
+        if only_claiming and not res.get("claims_reloc"):
+            continue  # nothing was relocated in this instantiation: its failures belong to other properties
         for v in res["violations"]:
             tags = set(v["tags"].split(","))
             if not (any_fail_counts or (tags & set(want_tags))):
                 continue
+            if only_faulted and "!" not in (v["hist"] + v["op"]):
+                continue  # no injected fault on this history: belongs to another property
             sig = "%s|%s|%s|%s|%s" % (engine, eng.kind(i), res["instantiation"]["cat"], opkind(v["op"]), norm(v["msg"]))
             if sig in cands:
                 continue
@@ -260,7 +269,7 @@ def explore(ctx, matrix, want_tags, engine="E1", any_fail_counts=False, eng=None
     cov = {
         "states": tot["states"], "transitions": tot["transitions"], "traces_validated_against_impl": tot["transitions"],
         "samples": samples[:12], "instantiations": insts, "max_depth": maxdepth, "distinct_outcomes": tot["outcomes"],
-        "violating_transitions_all_monitors": tot["violating"], "exhaustive": exhaustive,
+        "violating_transitions_all_monitors": tot["violating"], "exhaustive": exhaustive, "fault_transitions": tot.get("fault_transitions", 0),
         "bound": "every history whose container sizes stay <= L (per instantiation), pool size K, to the BFS fixpoint",
     }
     return cov
@@ -291,7 +300,7 @@ def relevant(pid, i):
 def merge_cov(a, b):
     """combine the coverage records of two explorations (vector + set engines)"""
     c = dict(a)
-    for k in ("states", "transitions", "traces_validated_against_impl", "distinct_outcomes", "violating_transitions_all_monitors"):
+    for k in ("states", "transitions", "traces_validated_against_impl", "distinct_outcomes", "violating_transitions_all_monitors", "fault_transitions"):
         c[k] = a[k] + b[k]
     c["samples"] = a["samples"][:6] + b["samples"][:6]
     c["instantiations"] = a["instantiations"] + b["instantiations"]
